@@ -270,20 +270,24 @@ struct C13 : vr::Driver {
       ob.verdict = "harness: base config rejected: " + err;
       return ob;
     }
-    auto* ad = new Adaptor(world::cgfs(), *o->ir_root_, *o->engine_);
-    o->fs_drop_in_service_.reset(ad);
+    // the synchronous adaptor is owned by the harness and driven at the start of every tick, where Oomd::run would drive its own
+    // drop-in service (no private member of the daemon is touched)
+    auto adOwner = std::make_unique<Adaptor>(world::cgfs(), *sim::lastIr, *sim::lastEngine);
+    Adaptor* ad = adOwner.get();
     sim::decide = [](const std::string&, const std::string&) { return 0; };
     std::vector<bool> accepted;
     auto out = sim::runTicks(*o, (int)H.size() + 1, [&](int k) {
-      if ((size_t)k > H.size()) return;
-      const Op& op = H[k - 1];
-      std::string t(1, (char)('A' + op.tag));
-      if (op.kind == 0)
-        accepted.push_back(ad->add(t, contentJson(t, op.content)));
-      else {
-        ad->remove(t);
-        accepted.push_back(true);
+      if ((size_t)k <= H.size()) {
+        const Op& op = H[k - 1];
+        std::string t(1, (char)('A' + op.tag));
+        if (op.kind == 0)
+          accepted.push_back(ad->add(t, contentJson(t, op.content)));
+        else {
+          ad->remove(t);
+          accepted.push_back(true);
+        }
       }
+      ad->updateDropIns();
     });
     if (out.escaped) {
       ob.verdict = "uncaught: " + out.excType + " " + out.excWhat;
